@@ -1,6 +1,7 @@
 package world
 
 import (
+	"context"
 	"crypto/sha256"
 	"encoding/hex"
 	"encoding/json"
@@ -618,13 +619,22 @@ func (l *SimLN) Recover(n *Node, payreq string) (string, error) {
 		n.op("ln.recover")
 		return "", err
 	}
-	return l.recover(n, payreq, body.H)
+	return l.recover(n, payreq, body.H, nil)
 }
 
 // RecoverHash is Recover by payment hash (lnd's TrackPaymentV2).
-func (l *SimLN) RecoverHash(n *Node, hash string) (string, error) { return l.recover(n, "", hash) }
+func (l *SimLN) RecoverHash(n *Node, hash string) (string, error) { return l.recover(n, "", hash, nil) }
 
-func (l *SimLN) recover(n *Node, payreq, hash string) (string, error) {
+// RecoverHashCtx is RecoverHash for a caller whose request carries a deadline (lnd: the
+// context of the TrackPaymentV2 call): the wait for a pending HTLC ends with the deadline.
+func (l *SimLN) RecoverHashCtx(ctx context.Context, n *Node, hash string) (string, error) {
+	return l.recover(n, "", hash, ctx)
+}
+
+// ErrRecoverDeadline: the caller's deadline passed while the payment was still pending.
+var ErrRecoverDeadline = errors.New("context deadline exceeded")
+
+func (l *SimLN) recover(n *Node, payreq, hash string, ctx context.Context) (string, error) {
 	w := l.w
 	f := n.op("ln.recover")
 	var err error
@@ -653,7 +663,17 @@ func (l *SimLN) recover(n *Node, payreq, hash string) (string, error) {
 		if p.State == "pending" {
 			// CLN: waitsendpay; LND: TrackPaymentV2 with NoInflightUpdates streams
 			// only the final update, so the first Recv blocks until the fate is known
-			p.Done.Wait("ln.recoverwait")
+			if dl, ok := deadlineOf(ctx); ok {
+				if left := time.Until(dl); left <= 0 || !p.Done.WaitTimeout("ln.recoverwait", left) {
+					n.checkAlive()
+					if !p.Done.Fired() {
+						l.w.Probe("ln:recover-wait-ended-by-deadline")
+						return "", ErrRecoverDeadline
+					}
+				}
+			} else {
+				p.Done.Wait("ln.recoverwait")
+			}
 			n.checkAlive()
 			if p.State == "settled" {
 				return p.Preimage, nil
@@ -675,4 +695,11 @@ func (l *SimLN) HasLiveHTLC(payer int, hash string) (pending, settled bool) {
 		}
 	}
 	return
+}
+
+func deadlineOf(ctx context.Context) (time.Time, bool) {
+	if ctx == nil {
+		return time.Time{}, false
+	}
+	return ctx.Deadline()
 }
